@@ -404,7 +404,7 @@ def _abstract_mobility_and_cost(ctx, w):
 def _step_cases(tier):
     out = []
     def add(**k):
-        d = dict(shape=(3,), method="newton", form="full", num_iter=2, aa=0, fault=-1, start="darcy", adaptive=False, target="linear_solve")
+        d = dict(shape=(3,), method="newton", form="full", num_iter=2, aa=0, fault=-1, start="darcy", adaptive=False, target="linear_solve", L=1.0)
         d.update(k)
         out.append(d)
     shapes = [(3,), (2, 2)] if tier == "quick" else [(3,), (4,), (2, 2), (3, 2), (1, 3), (2, 1, 2)]
@@ -425,6 +425,11 @@ def _step_cases(tier):
     for s in shapes[:2] if tier == "quick" else shapes:
         for f in ("full", "pressure"):
             add(shape=s, method="newton", form=f, num_iter=1, start="any-state")   # induction step: one iteration from ANY admissible iterate
+    # Bregman with a penalty parameter other than the one of the Darcy initialisation (L_init = 1): the matrix of the first regular step differs from the initial one,
+    # so nothing factorised for the initial solve may serve it
+    for f in ("full", "pressure", "flux_reduced"):
+        add(method="bregman", form=f, L=0.25)
+        add(method="bregman", form=f, L=4.0, shape=(2, 2))
     add(method="bregman", adaptive=True, form="pressure")
     add(method="bregman", adaptive=True, form="full", shape=(2, 2))
     if tier != "quick":
@@ -450,9 +455,9 @@ def _step_cases(tier):
     note="the real _solve of both methods executed on a symbolic mass difference (all data, every positive mobility, every cost functional, every Anderson coefficient); per grid "
          "shape and iteration count <= 3; start='any-state' is the induction step (one Newton iteration from an arbitrary iterate that satisfies balance + pin), which together with the "
          "skeleton VCs of C04.flag covers every num_iter")
-def c04_step(ctx, shape, method, form, num_iter, aa, fault, start, adaptive, target):
+def c04_step(ctx, shape, method, form, num_iter, aa, fault, start, adaptive, target, L=1.0):
     grid, h = grid_of(shape)
-    opts = base_options(formulation=form, linear_solver="direct", num_iter=num_iter, aa_depth=aa, tol_residual=2.0 ** -10, tol_increment=2.0 ** -10, tol_distance=2.0 ** -10)
+    opts = base_options(L=L, formulation=form, linear_solver="direct", num_iter=num_iter, aa_depth=aa, tol_residual=2.0 ** -10, tol_increment=2.0 ** -9, tol_distance=2.0 ** -11)      # three DIFFERENT tolerances: each criterion is tied to its own
     if adaptive:
         opts["bregman_update"] = lambda it: it == 1
     w = solver(method, grid, opts)
@@ -515,6 +520,13 @@ def c04_step(ctx, shape, method, form, num_iter, aa, fault, start, adaptive, tar
         change = abs(hist[-1] - hist[-2])
         ctx.ensure("converged => |last change of the distance| < tol_distance (relative to the distance for Bregman)", (change < tol_d) if method == "newton" else (change / hist[-1] < tol_d))
         ctx.ensure("converged => the reported distance is the last recorded one", eq(dist, hist[-1]))
+        H = info["convergence_history"]
+        if method == "newton":
+            ctx.ensure("converged => last residual < tol_residual * first residual", H["residual"][-1] < opts["tol_residual"] * H["residual"][0])
+            ctx.ensure("converged => last flux increment < tol_increment * first flux increment", H["flux_increment"][-1] < opts["tol_increment"] * H["flux_increment"][0])
+        else:
+            ctx.ensure("converged => last mass-conservation residual < tol_residual", H["mass_conservation_residual"][-1] < opts["tol_residual"])
+            ctx.ensure("converged => last auxiliary / force increment < tol_increment * the first one", H["aux_force_increment"][-1] < opts["tol_increment"] * H["aux_force_increment"][0])
     if fault >= 0:
         ctx.ensure("the fault was injected", st["hit"])
 
@@ -616,6 +628,42 @@ def c04_zero_tolerance(ctx, method, which):
         dist, info = w(m1, m2)
     ctx.ensure(f"{which} = 0: never reported converged", info["converged"] is False)
     ctx.ensure(f"{which} = 0: all {num_iter} iterations are performed", len(info["convergence_history"]["distance"]) == num_iter and info["number_iterations"] == num_iter - 1)
+
+
+@ob("C04.criteria", kind="B", cases=product_cases(method=("newton", "bregman"), which=("tol_residual", "tol_increment", "tol_distance", "pair")), funcs=FUNCS[:2], samples=(2, 4), tol=0.0,
+    cite="A run is reported converged only if its stopping criteria were met",
+    note="bounded: ONE tolerance given (the others at their deactivating defaults), or two different ones: a run reported converged satisfies every GIVEN criterion on the history it "
+         "recorded itself, and did not satisfy all of them at an earlier iteration (the proof C04.step states the same for three symbolic iterations, where a tolerance tied to the "
+         "wrong criterion leaves it undecided: after seed C04_k)")
+def c04_criteria(ctx, method, which):
+    rng = np.random.default_rng(ctx.rng.randrange(1 << 30))
+    shape = (5, 4)
+    grid, h = grid_of(shape)
+    m1, m2 = images(shape, h, rng)
+    val = {"newton": {"tol_residual": 1e-1, "tol_increment": 1e-2, "tol_distance": 1e-4}, "bregman": {"tol_residual": 1e-3, "tol_increment": 0.3, "tol_distance": 1e-4}}[method]
+    given = dict(val) if which == "pair" else {which: val[which]}
+    if which == "pair":
+        given.pop("tol_increment")
+    big = np.finfo(float).max
+    passed = {k: given.get(k, big) for k in ("tol_residual", "tol_increment", "tol_distance")}       # not given = the documented deactivating default
+    w = solver(method, grid, base_options(num_iter=200, **passed))
+    with warnings.catch_warnings():
+        warnings.simplefilter("ignore")
+        dist, info = w(m1, m2)
+    H = info["convergence_history"]
+
+    def met(k):                     # the documented criteria, evaluated at recorded iteration k with the tolerances that were PASSED
+        tr, ti, td = given.get("tol_residual", big), given.get("tol_increment", big), given.get("tol_distance", big)
+        with np.errstate(over="ignore"):
+            if method == "newton":
+                return H["residual"][k] < tr * H["residual"][0] and H["flux_increment"][k] < ti * H["flux_increment"][0] and H["distance_increment"][k] < td
+            return H["aux_force_increment"][k] < ti * H["aux_force_increment"][0] and H["distance_increment"][k] / H["distance"][k] < td and H["mass_conservation_residual"][k] < tr
+    n = len(H["distance"])
+    ctx.assume(bool(info["converged"]))            # a run that exhausts its budget says nothing about the flag (bounded: such samples are skipped)
+    if info["converged"]:
+        ctx.ensure(f"{which}: reported converged => the given criteria hold for the last recorded values", bool(met(n - 1)))
+        early = [k for k in range(2, n - 1) if met(k)]
+        ctx.ensure(f"{which}: ... and they did not all hold at an earlier iteration (the run stops as soon as they do); earlier: {early[:3]}", not early)
 
 
 @ob("C04.dep_numeric", kind="B", samples=(2, 6), funcs=[], tol=1e-11, cite="(validation of assumed dependency contracts)",
